@@ -197,7 +197,7 @@ def build_runner(force=False):
     stamp = os.path.join(RUNNER_DIR, "stamp")
     if not force and os.path.exists(RUNNER) and os.path.exists(stamp) and open(stamp).read() == h:
         return True, "cached"
-    ok, out = make(["theories/Model/Run.vo", "theories/Model/Fixed.vo", "theories/Proofs/AccRun.vo"])
+    ok, out = make(["theories/Model/Run.vo", "theories/Model/Fixed.vo", "theories/Model/DurationW.vo", "theories/Proofs/AccRun.vo"])
     if not ok:
         return False, out
     rc, out = C.sh(["coqc", "-noglob", "-Q", os.path.join(C.COQ, "theories"), "UomV",
@@ -360,6 +360,14 @@ def coq_request(cls, r):
         if k == "prim":
             return f"(WPrim {_z(r[1])} {_z(r[2])} {_z(r[3])} {rt(r[4])} {rt(r[5])})"
         return None
+    if cls == "dw":
+        rt = lambda v: f"({_z(v[0])}, {_z(v[1])})"
+        rts = lambda l: "[" + "; ".join(rt(v) for v in l) + "]"
+        if k == "to":
+            return f"(DWTo {_z(r[1])} {_z(r[2])} {rts(r[3])} {_zs(r[4])} {rt(r[5])} {rt(r[6])} {_z(r[7])})"
+        if k == "from":
+            return f"(DWFrom {_z(r[1])} {_z(r[2])} {rts(r[3])} {_zs(r[4])} {rt(r[5])} {rt(r[6])} {_z(r[7])} {_z(r[8])})"
+        return None
     if k in ("new", "get"):
         return f"({'RNew' if k == 'new' else 'RGet'} {_cexprs(r[1])} {_zs(r[2])} {_cexpr(r[3])} {_const(r[4])} {val(r[5])})"
     if k == "rebase":
@@ -399,14 +407,14 @@ def vm_sample_check(lines, results, rng, n=40, workdir=None):
     cand = []
     for l in lines:
         sp = l.split(" ", 3)
-        if len(sp) == 4 and sp[1] in ("f64", "f32", "q", "z", "w") and sp[0] in results:
+        if len(sp) == 4 and sp[1] in ("f64", "f32", "q", "z", "w", "dw") and sp[0] in results:
             cand.append(sp)
     if not cand:
         return 0, [], None
     sample = rng.sample(cand, min(n, len(cand)))
     workdir = C.ensure_dir(workdir or os.path.join(C.BUILD, "vmcheck"))
     src = ["From Coq Require Import ZArith QArith List String.",
-           "From UomV Require Import Model.Tables Model.Conv Model.FloatM Model.FloatOps Model.Exact Model.Quantity Model.Storages Model.Duration Model.Fixed Model.Run.",
+           "From UomV Require Import Model.Tables Model.Conv Model.FloatM Model.FloatOps Model.Exact Model.Quantity Model.Storages Model.Duration Model.Fixed Model.DurationW Model.Run.",
            "Import ListNotations. Open Scope Z_scope."]
     used = []
     for cid, cls, lib, req in sample:
@@ -417,7 +425,7 @@ def vm_sample_check(lines, results, rng, n=40, workdir=None):
             term = None
         if term is None:
             continue
-        fn = {"f64": f"run64 {'LibStd' if lib == 'std' else 'LibCore'}", "f32": f"run32 {'LibStd' if lib == 'std' else 'LibCore'}", "q": "q_run", "z": "z_run", "w": "w_run"}[cls]
+        fn = {"f64": f"run64 {'LibStd' if lib == 'std' else 'LibCore'}", "f32": f"run32 {'LibStd' if lib == 'std' else 'LibCore'}", "q": "q_run", "z": "z_run", "w": "w_run", "dw": "dw_run"}[cls]
         src.append(f'Goal True. idtac "@@ {cid}". exact I. Qed.')
         if cls == "q":
             src.append(f"Eval vm_compute in (map (fun q => (Qnum q, Zpos (Qden q))) ({fn} {term})).")
